@@ -423,3 +423,95 @@ Proof.
   destruct (Consts.QAcceptPeriodMaximum <? to_int64 (ts - r_ts p)) eqn:E4; [discriminate|].
   split; [exact E1|]. split; [reflexivity|]. exists p. split; [reflexivity|]. lia.
 Qed.
+
+(* ---- order independence of the loaded history ----------------------------- *)
+
+(* The storage layer keys a membership record by (timestamp, signer), and the
+   node id is derived from the signer, so no two records of a history carry the
+   same (timestamp, id) pair.  storage.ReadAllNodes hands equal-timestamp
+   records over in the iteration order of a Go map; LoadConsensusNodes re-sorts
+   by (timestamp, id).  Under that guarantee the sorted history is unique. *)
+Definition rec_key (r : nrec) : Z * N := (r_ts r, r_id r).
+Definition distinct_keys (recs : list nrec) : Prop := NoDup (map rec_key recs).
+
+Lemma rec_lt_both_false : forall a b,
+  rec_lt a b = false -> rec_lt b a = false -> rec_key a = rec_key b.
+Proof.
+  intros a b H1 H2. unfold rec_key.
+  assert (N1 : ~ (r_ts a < r_ts b \/ (r_ts a = r_ts b /\ (r_id a < r_id b)%N)))
+    by (intro X; apply rec_lt_spec in X; congruence).
+  assert (N2 : ~ (r_ts b < r_ts a \/ (r_ts b = r_ts a /\ (r_id b < r_id a)%N)))
+    by (intro X; apply rec_lt_spec in X; congruence).
+  f_equal; lia.
+Qed.
+
+Lemma rec_lt_irrefl : forall a, rec_lt a a = false.
+Proof.
+  intro a. destruct (rec_lt a a) eqn:E; [|reflexivity]. apply rec_lt_spec in E. lia.
+Qed.
+
+Lemma distinct_keys_inj : forall l a b,
+  distinct_keys l -> In a l -> In b l -> rec_key a = rec_key b -> a = b.
+Proof.
+  unfold distinct_keys. induction l as [|x l IH]; intros a b Hd Ha Hb Hk; [contradiction|].
+  cbn [map] in Hd. inversion Hd as [|? ? Hn Hd']; subst.
+  destruct Ha as [<-|Ha]; destruct Hb as [<-|Hb].
+  - reflexivity.
+  - exfalso. apply Hn. rewrite Hk. apply in_map; exact Hb.
+  - exfalso. apply Hn. rewrite <- Hk. apply in_map; exact Ha.
+  - apply IH; assumption.
+Qed.
+
+Lemma sorted_head_min : forall y l z, sorted (y :: l) -> In z (y :: l) -> rec_lt z y = false.
+Proof.
+  intros y l z Hs Hz. inversion Hs as [|? ? Hy _]; subst.
+  destruct Hz as [<-|Hz]; [apply rec_lt_irrefl|].
+  rewrite Forall_forall in Hy. apply Hy; exact Hz.
+Qed.
+
+(* a total order that is antisymmetric on distinct keys has one sorted permutation *)
+Lemma sorted_perm_unique : forall l l',
+  sorted l -> sorted l' -> Permutation l l' -> distinct_keys l -> l = l'.
+Proof.
+  induction l as [|x t IH]; intros l' Hs Hs' Hp Hd.
+  - apply Permutation_nil in Hp. subst. reflexivity.
+  - destruct l' as [|y t']; [apply Permutation_sym, Permutation_nil in Hp; discriminate|].
+    assert (Hxy : x = y).
+    { assert (Hx : In x (y :: t')) by (eapply Permutation_in; [exact Hp|left; reflexivity]).
+      assert (Hy : In y (x :: t)) by (eapply Permutation_in; [apply Permutation_sym; exact Hp|left; reflexivity]).
+      apply (distinct_keys_inj (x :: t)); [exact Hd|left; reflexivity|exact Hy|].
+      apply rec_lt_both_false.
+      - eapply sorted_head_min; [exact Hs'|exact Hx].
+      - eapply sorted_head_min; [exact Hs|exact Hy]. }
+    subst y. f_equal.
+    inversion Hs as [|? ? _ Hst]; inversion Hs' as [|? ? _ Hst']; subst.
+    apply IH; [exact Hst|exact Hst'|eapply Permutation_cons_inv; exact Hp|].
+    unfold distinct_keys in *. cbn [map] in Hd. inversion Hd; assumption.
+Qed.
+
+Lemma load_perm : forall recs recs',
+  Permutation recs recs' -> distinct_keys recs -> load recs = load recs'.
+Proof.
+  intros recs recs' Hp Hd. unfold load.
+  apply sorted_perm_unique; [apply sort_sorted|apply sort_sorted| |].
+  - eapply perm_trans; [apply sort_perm|]. eapply perm_trans; [exact Hp|apply Permutation_sym, sort_perm].
+  - unfold distinct_keys in *. eapply Permutation_NoDup; [|exact Hd].
+    apply Permutation_map, Permutation_sym, sort_perm.
+Qed.
+
+Lemma distinct_keys_dec : forall recs,
+  (fix nd (l : list nrec) : bool :=
+     match l with
+     | [] => true
+     | r :: l' => negb (existsb (fun r' => (r_ts r' =? r_ts r) && (r_id r' =? r_id r)%N) l') && nd l'
+     end) recs = true -> distinct_keys recs.
+Proof.
+  unfold distinct_keys. induction recs as [|r l IH]; intro H; [constructor|].
+  apply andb_true_iff in H. destruct H as [H1 H2]. cbn [map]. constructor; [|apply IH; exact H2].
+  intro Hin. apply in_map_iff in Hin. destruct Hin as [r' [Hk Hr']].
+  apply negb_true_iff in H1.
+  assert (X : existsb (fun r0 => (r_ts r0 =? r_ts r) && (r_id r0 =? r_id r)%N) l = true).
+  { apply existsb_exists. exists r'. split; [exact Hr'|]. unfold rec_key in Hk. inversion Hk as [[E1 E2]].
+    rewrite E1, E2, Z.eqb_refl, N.eqb_refl. reflexivity. }
+  congruence.
+Qed.
